@@ -17,6 +17,9 @@ TLAJARS = "/opt/veriftools/tla/tla2tools.jar:/opt/veriftools/tla/CommunityModule
 NCPU = os.cpu_count() or 4
 
 
+CURRENT = None      # the verdict object of the running check (see ./check: a demonstrated divergence stands)
+
+
 class Machinery(Exception):
     """something in the checking machinery failed; never a verdict"""
 
@@ -395,6 +398,8 @@ def match_known(prop, cause):
 
 class Verdict:
     def __init__(self, prop, tier, seed, level="model_checking"):
+        global CURRENT
+        CURRENT = self
         self.prop, self.tier, self.seed, self.level = prop, tier, seed, level
         self.t0 = time.time()
         self.violations = []      # (replay path, description)
